@@ -125,7 +125,10 @@ fn build(ch: &mut Chooser, ms: &[Vec<Piece>]) -> FCase {
     let (h, w) = shapes[ch.choose("group-shape", shapes.len())];
     let anchor = [(0u32, 0u32), (5, 3), (0, 24)][ch.choose("master-position", 3)];
     let m = &ms[ch.choose("master-formula", ms.len())];
-    let two_groups = ch.flag("second-group");
+    // second group: none / below the first / its master on the last row of the first group, in the column to its left (so that
+    // members of the first group still follow it in document order)
+    let second = ch.choose("second-group(none,below,master-on-last-row-of-first)", 3);
+    let two_groups = second > 0;
     let si_swapped = two_groups && ch.flag("si-order-swapped");
     let omit_member = ch.flag("one-member-without-formula");
     let mut cells: Vec<xlsx::XCell> = vec![];
@@ -151,7 +154,8 @@ fn build(ch: &mut Chooser, ms: &[Vec<Piece>]) -> FCase {
     add_group(&mut cells, &mut expect, si_a, anchor, h, w, m, omit_member, skip);
     if two_groups {
         let m2 = &ms[(ms.len() / 2 + 7) % ms.len()];
-        add_group(&mut cells, &mut expect, si_b, (anchor.0 + 6, anchor.1 + 1), 2, 2, m2, false, 0);
+        if second == 2 && anchor.1 >= 1 { add_group(&mut cells, &mut expect, si_b, (anchor.0 + h - 1, anchor.1 - 1), 3, 1, m2, false, 0); }
+        else { add_group(&mut cells, &mut expect, si_b, (anchor.0 + 6, anchor.1 + 1), 2, 2, m2, false, 0); }
     }
     // cells outside any group: a plain formula, a value
     let mut plain = xlsx::XCell::new(anchor.0 + 10, anchor.1, xlsx::XVal::Num("2".into()));
@@ -159,10 +163,10 @@ fn build(ch: &mut Chooser, ms: &[Vec<Piece>]) -> FCase {
     expect.push(((anchor.0 + 10, anchor.1), "A1*2".into()));
     cells.push(plain);
     cells.push(xlsx::XCell::new(anchor.0 + 10, anchor.1 + 2, xlsx::XVal::Num("3".into())));
-    let enc = xlsx::XEnc { prefix: ch.flag("xlsx.prefix"), indent: ch.flag("xlsx.indented"), comments: ch.flag("xlsx.comments-between-elements"), extras: ch.flag("xlsx.optional-neighbours-of-sheetData"), rows_never_r: ch.flag("xlsx.rows-never-carry-r"), cell_r: if ch.flag("xlsx.cell-r-implicit") { xlsx::RMode::Implicit } else { xlsx::RMode::Explicit }, ..Default::default() };
+    let enc = xlsx::XEnc { prefix: ch.flag("xlsx.prefix"), indent: ch.flag("xlsx.indented"), comments: ch.flag("xlsx.comments-between-elements"), extras: ch.flag("xlsx.optional-neighbours-of-sheetData"), rows_never_r: ch.flag("xlsx.rows-never-carry-r"), shared_members_carry_text: ch.flag("xlsx.members-repeat-the-master-text"), cell_r: if ch.flag("xlsx.cell-r-implicit") { xlsx::RMode::Implicit } else { xlsx::RMode::Explicit }, ..Default::default() };
     let bytes = xlsx::write(&xlsx::XBook { sheets: vec![xlsx::XSheet::new("S", cells)], ..Default::default() }, &enc);
     expect.sort();
-    let desc = json!({"shape": [h, w], "master_cell": a1(anchor.0, anchor.1), "master": render(m, (0, 0)), "master_skips": skip, "second_group": two_groups, "si_swapped": si_swapped, "member_without_formula": omit_member});
+    let desc = json!({"shape": [h, w], "master_cell": a1(anchor.0, anchor.1), "master": render(m, (0, 0)), "master_skips": skip, "second_group": second, "si_swapped": si_swapped, "member_without_formula": omit_member});
     FCase { bytes, expect, desc }
 }
 
